@@ -212,12 +212,15 @@ Definition revert_balances_ok (orig : list posting) (vols : volmap) : revert_che
   end.
 
 (* ---------- transactions metadata ---------- *)
-Definition set_tx (txs : list tx) (t' : tx) : list tx := map (fun t => if t_id t =? t_id t' then t' else t) txs.
+(* UPDATE transactions SET ... WHERE id = ? : every matching row is rewritten by [fn] *)
+Definition map_tx (txs : list tx) (id : Z) (fn : tx -> tx) : list tx := map (fun t => if t_id t =? id then fn t else t) txs.
 Definition tx_with (t : tx) (md : meta) (upd : Z) (rv : option Z) : tx :=
   {| t_id := t_id t; t_postings := t_postings t; t_meta := md; t_ts := t_ts t; t_ref := t_ref t; t_ins := t_ins t;
      t_upd := upd; t_rev := rv; t_pcv := t_pcv t; t_pcev := t_pcev t |}.
-Definition touch_tx (f : features) (s : state) (t' : tx) : state :=
-  {| s_vols := s_vols s; s_txs := set_tx (s_txs s) t'; s_moves := s_moves s; s_accounts := s_accounts s; s_ahist := s_ahist s;
+(* the AFTER UPDATE trigger records the new metadata as the next revision, dated new.updated_at *)
+Definition touch_tx (f : features) (s : state) (t : tx) (fn : tx -> tx) : state :=
+  let t' := fn t in
+  {| s_vols := s_vols s; s_txs := map_tx (s_txs s) (t_id t) fn; s_moves := s_moves s; s_accounts := s_accounts s; s_ahist := s_ahist s;
      s_thist := if f_tx_hist f then s_thist s ++ [{| th_tx := t_id t'; th_rev := next_rev_t (s_thist s) (t_id t'); th_date := t_upd t'; th_meta := t_meta t' |}]
                 else s_thist s;
      s_logs := s_logs s; s_next_tx := s_next_tx s; s_next_log := s_next_log s; s_next_seq := s_next_seq s |}.
@@ -248,8 +251,9 @@ Definition run_input (f : features) (now : Z) (s : state) (i : input) : outcome 
       match t_rev t with
       | Some _ => Failed s EAlreadyReverted
       | None =>
-        let t' := tx_with t (t_meta t) now (Some now) in
-        let s1 := touch_tx f s t' in
+        let mark := fun x => tx_with x (t_meta x) now (Some now) in
+        let t' := mark t in
+        let s1 := touch_tx f s t mark in
         let chk := if force then RCOk else revert_balances_ok (t_postings t) (s_vols s1) in
         match chk with
         | RCPanic => Panicked
@@ -267,7 +271,7 @@ Definition run_input (f : features) (now : Z) (s : state) (i : input) : outcome 
     match find_tx (s_txs s) id with
     | None => Failed s ENotFound
     | Some t => if mcontains (t_meta t) md then Done s (PSetMeta (TTx id) md)
-                else Done (touch_tx f s (tx_with t (mmerge (t_meta t) md) now (t_rev t))) (PSetMeta (TTx id) md)
+                else Done (touch_tx f s t (fun x => tx_with x (mmerge (t_meta x) md) now (t_rev x))) (PSetMeta (TTx id) md)
     end
   | ISetMeta (TAcc a) md =>
     Done (with_accounts s (upsert_account (f_acc_hist f) now (s_accounts s, s_ahist s) a md None None None)) (PSetMeta (TAcc a) md)
@@ -276,7 +280,7 @@ Definition run_input (f : features) (now : Z) (s : state) (i : input) : outcome 
     | None => Failed s ENotFound
     | Some t => match mget (t_meta t) k with
                 | None => Failed s ENotFound
-                | Some _ => Done (touch_tx f s (tx_with t (mdel (t_meta t) k) now (t_rev t))) (PDelMeta (TTx id) k)
+                | Some _ => Done (touch_tx f s t (fun x => tx_with x (mdel (t_meta x) k) now (t_rev x))) (PDelMeta (TTx id) k)
                 end
     end
   | IDelMeta (TAcc a) k =>
